@@ -73,9 +73,9 @@ std::string Shape::to_string() const {
 }
 
 bool Shape::has_same_loo_dims(const Shape &rhs, std::uint32_t dim) const {
-  std::uint32_t nl = depth_ == dim + 1 ? dim : depth_;
+  std::uint32_t nl = (depth_ > 0 && depth_ - 1 == dim) ? dim : depth_;
   while (nl > 0 && dims_[nl - 1] == 1) --nl;
-  std::uint32_t nr = rhs.depth_ == dim + 1 ? dim : rhs.depth_;
+  std::uint32_t nr = (rhs.depth_ > 0 && rhs.depth_ - 1 == dim) ? dim : rhs.depth_;
   while (nr > 0 && rhs.dims_[nr - 1] == 1) --nr;
   bool p = nl == nr;
   for (std::uint32_t i = 0; i < nl; ++i) {
